@@ -7,8 +7,9 @@ from vf import q, qlist, clist, cbool, cnat, copt, frac, fr_json
 
 ID = 'C03'
 COQ_DIR = 'C03'
-COQ_HEADER = 'From V Require Import Common.Num C03.Model.\nOpen Scope Q_scope.'
+COQ_HEADER = 'From V Require Import Common.Num C03.Model C03.ModelVlle.\nOpen Scope Q_scope.'
 CASE_TIMEOUT = 60
+MODEL_FILES = ('Model.v', 'ModelVlle.v')
 RULE = ('streams over a 7-chemical package (3 volatile, 2 gas-locked, 2 liquid/solid-locked with N_solutes 0 and 2) with 2-3 phases, '
         'random presence pattern and dyadic flows in l, g (and s), every specification pair of VLE.__call__ (T,P T,V T,H T,S T,x T,y P,V P,H P,S P,x P,y); '
         'stub stream: VLE._solve_v_fixed_point, flx.IQ_interpolation, BubblePoint.solve_Py/Ty, DewPoint.solve_Px/Tx, mixture.xH/xS/H/S/xsolve_T_at_HP/SP replaced '
@@ -217,15 +218,27 @@ def gen_sle_case(rng):
     return {'kind': 'sle', 'sub': sub, 'l': l, 's': s, 'j': j, 'T': rng.choice([300., 320., 310.15, 312.]),
             'x': rng.choice([-0.25, 0., 0.125, 0.25, 0.5, 0.75, 0.9, 1., 1.5, 0.01])}
 
+def gen_vlle_case(rng):
+    n = len(IDS)
+    rows = {}
+    pat = [rng.random() < 0.8 for _ in range(3)] + [rng.random() < p for p in (0.3, 0.1, 0.3, 0.2)]
+    if not any(pat[:3]): pat[rng.randrange(3)] = True
+    for ph in 'Lgl':
+        rows[ph] = [rng.choice(FLOWS) if pat[i] and rng.random() < 0.6 else 0. for i in range(n)]
+    return {'kind': 'vlle', 'L': rows['L'], 'g': rows['g'], 'l': rows['l'], 'T': rng.choice(TS), 'P': rng.choice(PS),
+            'iters': rng.choice([0, 1, 1, 2, 3]), 'co': lin_coefs(rng), 'spec': {}, 'mode': 'stub',
+            'draws': [rng.random() for _ in range(64)]}
+
 def gen_cases(rng, tier):
     if tier == 'quick':
-        n_stub, n_real, n_lle, n_sle = 230, 28, 40, 40
+        n_stub, n_real, n_lle, n_sle, n_vlle = 230, 28, 40, 40, 30
     else:
-        n_stub, n_real, n_lle, n_sle = 3000, 300, 400, 400
+        n_stub, n_real, n_lle, n_sle, n_vlle = 3000, 300, 400, 400, 300
     cases = [gen_vle_case(rng) for _ in range(n_stub)]
     cases += [gen_real_case(rng) for _ in range(n_real)]
     cases += [gen_lle_case(rng) for _ in range(n_lle)]
     cases += [gen_sle_case(rng) for _ in range(n_sle)]
+    cases += [gen_vlle_case(rng) for _ in range(n_vlle)]
     return cases
 
 # ------------------------------------------------------------------ implementation side: VLE
@@ -279,7 +292,7 @@ def install_stubs(rec, case, vleobj):
         val = baseT + rec.draw(TOFF); x = comp(len(z)); rec.add('d', [val, fl(x)]); return val, x
     p.set(BubblePoint, 'solve_Py', solve_Py); p.set(BubblePoint, 'solve_Ty', solve_Ty)
     p.set(DewPoint, 'solve_Px', solve_Px); p.set(DewPoint, 'solve_Tx', solve_Tx)
-    VFAC = [-0.5, 0., 0.25, 0.5, 0.75, 1., 1.5, 0.125]
+    VFAC = [-0.5, 0., 0.3125, 0.4375, 0.8125, 1., 1.5, 0.0625]   # disjoint from VS: no exact V_bubble == V ties (decided by rounding)
     def fixed_point(self, pcf_Psat_over_P, T, P, gas_conversion, liquid_conversion):
         mol = np.asarray(self._mol_vle, float)
         raw = np.array([m * rec.draw(VFAC) for m in mol], float)
@@ -318,8 +331,10 @@ def install_recorders(rec, vleobj):
     def wrap_bd(cls, name, kind):
         orig = cls.__dict__[name]
         def w(self, *a, **k):
+            if not from_vle(): return orig(self, *a, **k)
+            slot = len(rec.events); rec.add(kind, None)     # stays None if the solver raises
             r = orig(self, *a, **k)
-            if from_vle(): rec.add(kind, [float(r[0]), fl(r[1])])
+            rec.events[slot][2] = [float(r[0]), fl(r[1])]
             return r
         p.set(cls, name, w)
     wrap_bd(BubblePoint, 'solve_Py', 'b'); wrap_bd(BubblePoint, 'solve_Ty', 'b')
@@ -396,7 +411,10 @@ def run_vle(case):
         except Exception as ex:
             raised = exc_name(ex)
             if raised is None:
-                raise
+                if any(e[2] is None for e in rec.events):
+                    raised = 'oracle:' + type(ex).__name__     # raised inside a real solver (e.g. numba cache ReferenceError): not compared
+                else:
+                    raise
     finally:
         p.undo()
     out = {'init': init, 'final': snapshot(s), 'raised': raised, 'events': rec.events, 'ticks': rec.tick, 'spec': spec}
@@ -487,7 +505,63 @@ def run_sle(case):
     out['has_chemical'] = sle._chemical is not None
     return out
 
+def run_vlle(case):
+    """Stream.vlle with every solver stubbed: VLE oracles per VLE call, LLE solver / phase_fraction per LLE call,
+    flx.fixed_point replaced by plain iteration a seeded number of times"""
+    e = env(); tmo = e['tmo']; vm = e['vm']; lm = e['lm']
+    import thermosteam._stream as sm
+    s = tmo.MultiStream(None, T=298.15, P=101325., phases='Lgl', thermo=e['thermo'])
+    for ph in 'Lgl': s.imol[ph] = np.array(case[ph], float)
+    rec = Rec(case)
+    case = dict(case, spec={'T': case['T'], 'P': case['P']})
+    rec.case = case
+    dummy = types.SimpleNamespace(mixture=e['thermo'].mixture)
+    p = install_stubs(rec, case, dummy)
+    vsegs = []; lsegs = []
+    orig_vcall = vm.VLE.__dict__['__call__']; orig_lcall = lm.LLE.__dict__['__call__']
+    def vcall(self, **kw):
+        rec.tick = 0; start = len(rec.events)
+        try:
+            return orig_vcall(self, **kw)
+        finally:
+            N = getattr(self, '_N', None); chem = None
+            if N == 1:
+                c = self._chemical; chem = {'Tc': float(c.Tc), 'Psat': float(c.Psat(kw['T']))}
+            vsegs.append({'events': rec.events[start:], 'chem': chem})
+    lcalls = []
+    def lcall(self, T, P=None, **kw):
+        del lcalls[:]
+        try:
+            return orig_lcall(self, T, P, **kw)
+        finally:
+            lsegs.append([list(c) for c in lcalls])
+    def solver(self, mol, T, lle_chemicals, single_loop):
+        r = np.array([m * rec.draw([0., 0.25, 0.5, 0.75, 1.]) for m in mol], float)
+        lcalls.append(['solve', fl(r)]); return r
+    def pf(z, K, phi):
+        r = rec.draw([0., 0.25, 0.5, 0.75, 1., 0.999])
+        lcalls.append(['phi', r, fl(K)]); return r
+    def fixed_point(f, x0, *a, **k):
+        x = x0
+        for _ in range(max(1, case['iters'])): x = f(x)
+        return x
+    p.set(vm.VLE, '__call__', vcall); p.set(lm.LLE, '__call__', lcall)
+    p.set(lm.LLE, 'solve_lle_liquid_mol', solver); p.set(lm, 'phase_fraction', pf)
+    p.set(sm, 'flx', types.SimpleNamespace(fixed_point=fixed_point))
+    raised = None
+    try:
+        try:
+            s.vlle(case['T'], case['P'])
+        except Exception as ex:
+            raised = type(ex).__name__
+    finally:
+        p.undo()
+    rows = {ph: fl(r.to_array()) for ph, r in tuple(s.imol)}
+    return {'final': {'L': rows['L'], 'g': rows['g'], 'l': rows['l'], 'T': float(s.T), 'P': float(s.P)},
+            'vsegs': vsegs, 'lsegs': lsegs, 'raised': raised}
+
 def run_impl(case):
+    if case['kind'] == 'vlle': return run_vlle(case)
     if case['kind'] == 'vle': return run_vle(case)
     if case['kind'] == 'lle': return run_lle(case)
     return run_sle(case)
@@ -533,6 +607,8 @@ def spec_term(case, out):
 CHECK_FN = 'vle_check_flows'     # C03 compares the material; C04 reuses this harness with the full comparison
 
 def coq_vle(case, out):
+    if any(e[2] is None for e in out['events']):
+        return 'true'     # a real solver / property model raised inside the call: outside the model (oracles return values)
     raised = 'None' if out['raised'] is None else f'(Some {out["raised"]})'
     return (f'({CHECK_FN} {cfg_term()} {orc_term(case, out)} {spec_term(case, out)} {st_term(out["init"])} '
             f'{st_term(out["final"])} {raised} {cnat(out["ticks"])})')
@@ -571,12 +647,45 @@ def coq_sle(case, out):
         return f'(sle_check (sle_update {clist(out["index"], cnat)} {j} {q(out["msol"])} {q(case["x"])} {st}) {exp} {cbool(raised)})'
     return f'(sle_check (sle_given {j} {q(case["T"])} {q(case["x"])} {st}) {exp} {cbool(raised)})'
 
+def lo_term(calls, top=None):
+    e = env()
+    cache = any(c[0] == 'phi' for c in calls)
+    K = next((c[2] for c in calls if c[0] == 'phi'), [])
+    phi = next((c[1] for c in calls if c[0] == 'phi'), 0.)
+    molL = next((c[1] for c in calls if c[0] == 'solve'), [])
+    return f'(mklo {cbool(cache)} {qlist(K)} {q(phi)} {qlist(molL)} None {qlist(e["MW"])})'
+
+def coq_vlle(case, out):
+    e = env()
+    if out['raised']:
+        raise ValueError('vlle raised ' + out['raised'])
+    c2 = dict(case, mode='stub', sk='TP')
+    def vo(seg):
+        return orc_term(c2, {'events': seg['events'], 'chem': seg['chem'], 'lims': [0., 0.]})
+    dummy_v = {'events': [], 'chem': None}
+    vs = out['vsegs']; ls = out['lsegs']
+    vo0 = vo(vs[0]) if vs else vo(dummy_v)
+    lo0 = lo_term(ls[0] if ls else [])
+    steps = []
+    k = 0
+    while 1 + 2 * k + 1 < len(vs) and 1 + k < len(ls):
+        steps.append(f'({lo_term(ls[1 + k])}, {vo(vs[1 + 2 * k])}, {vo(vs[2 + 2 * k])})'); k += 1
+    ch = e['thermo'].chemicals
+    islle = [i in ch._lle_index for i in range(len(IDS))]
+    init = f'(mkv3 {qlist(case["L"])} {qlist(case["g"])} {qlist(case["l"])} {q(298.15)} {q(101325.)})'
+    f = out['final']
+    exp = f'(mkv3 {qlist(f["L"])} {qlist(f["g"])} {qlist(f["l"])} {q(f["T"])} {q(f["P"])})'
+    return (f'(vlle_check (vlle {cfg_term()} {clist(islle, cbool)} {vo0} {lo0} {clist(steps)} {q(case["T"])} {q(case["P"])} {init}) {exp})')
+
 def coq_case(case, out):
+    if case['kind'] == 'vlle': return coq_vlle(case, out)
     if case['kind'] == 'vle': return coq_vle(case, out)
     if case['kind'] == 'lle': return coq_lle(case, out)
     return coq_sle(case, out)
 
 def coq_show(case, out):
+    if case['kind'] == 'vlle':
+        return coq_vlle(case, out).replace('(vlle_check (vlle', '((vlle', 1).rsplit(' (mkv3', 1)[0] + ')'
     if case['kind'] == 'vle':
         return f'(vle_call {cfg_term()} {orc_term(case, out)} {spec_term(case, out)} (mkm {st_term(out["init"])} 0))'
     if case['kind'] == 'lle':
@@ -584,6 +693,8 @@ def coq_show(case, out):
     return 'tt'
 
 def nontrivial(case, out):
+    if case['kind'] == 'vlle':
+        return (case['L'], case['g'], case['l']) != (out['final']['L'], out['final']['g'], out['final']['l'])
     if case['kind'] == 'vle':
         i, f = out['init'], out['final']
         return (i['l'], i['g']) != (f['l'], f['g'])
@@ -592,8 +703,11 @@ def nontrivial(case, out):
     return out['before']['l'] != out['after']['l'] or out['before']['s'] != out['after']['s']
 
 def classify(case, out):
+    if case['kind'] == 'vlle':
+        return [f'vlle:vle-calls={len(out["vsegs"])}:lle-calls={len(out["lsegs"])}']
     if case['kind'] == 'vle':
         ks = [f'vle:{case["mode"]}:{case["sk"]}', f'N:{out.get("N")}', 'raised:' + str(out['raised'])]
+        if any(e[2] is None for e in out['events']): return ks + ['oracle-raised (not compared)']
         kinds = ''.join({'b': 'b', 'd': 'd', 'v': 'v', 'iq': 'Q', 'xh': 'h', 'hp': 'p', 'st': 't'}[e[1]] for e in out['events'])
         ks.append(f'path:{case["sk"]}:{kinds[:14]}')
         if any(e[1] == 'v' and any(x < 0 for x in e[2]) for e in out['events']): ks.append('adversarial:v<0')
@@ -621,6 +735,18 @@ def check_rows(before, after, names, tol=1e-9):
 def oracle(case):
     """Runs the REAL code with the REAL solvers (no stubs) and evaluates the property on the stream."""
     e = env()
+    if case['kind'] == 'vlle':
+        tmo = e['tmo']
+        s = tmo.MultiStream(None, T=298.15, P=101325., phases='Lgl', thermo=e['thermo'])
+        for ph in 'Lgl': s.imol[ph] = np.array(case[ph], float)
+        try:
+            vf_local = __import__('vf')
+            vf_local.with_timeout(s.vlle, 20, case['T'], case['P'])
+        except BaseException:
+            return None
+        rows = {ph: fl(r.to_array()) for ph, r in tuple(s.imol)}
+        msg = check_rows([case['L'], case['g'], case['l']], [rows['L'], rows['g'], rows['l']], IDS, tol=1e-6)
+        return 'vlle: ' + msg if msg else None
     if case['kind'] == 'vle':
         s = build_stream(case)
         init = snapshot(s)
